@@ -35,7 +35,7 @@ import itertools
 
 import numpy as np
 
-from vmc import bfs, common
+from vmc import common
 from vmc.parallel import run_shards, shard
 from vmc.report import Check
 
